@@ -14,8 +14,9 @@ Here: (1) correspondence — the model's manager state, written JSON, dumps form
 verdict and reloaded state against the real setters / write_input_file / validate_input_file /
 _run_manager_from_cli_worker (design run stubbed) on the same configurations; (2) the property on
 the real code with oracles that share nothing with it: jsonschema called directly per section,
-byte comparison of write -> load -> write, state comparison, and the design actually run on both
-sides for a few configurations.
+byte comparison of write -> load -> write, state comparison, the written file / the writing manager /
+the reloaded manager against the harness's own record of every setter argument (`written-vs-api-config`),
+and the design actually run on both sides for a few configurations.
 """
 from __future__ import annotations
 
@@ -122,10 +123,14 @@ def run(ctx: core.Ctx):
     n_random = 60 if ctx.tier == "quick" else 1200
     cases = corpus_cases()
     ctx.count("corpus_cases", len(cases))
+    # covering array: every geometry variant x pipe arrangement, each geometry with both flow types (twice each), fluids /
+    # cap / continue flag cycled; the RowWise rows carry the boundary rotations (+-90, 0) in every tier
+    boundary_rot = {"ROWWISE": [(-90, 90), (0, 90.0), (-90.0, 0), (90, 90)], "ROWWISE_NORATIO": [(-90.0, 90.0), (0, 0), (-90, -90), (-60, 60)]}
     k = 0
     for g in cl.GEOMS:
-        for p in cl.PIPES:
-            cases.append(cl.gen_config(rng, geom=g, pipe=p, fluid=cl.FLUIDS[k % 5], cap=bool(k & 1), cont=bool(k & 2)))
+        for pi, p in enumerate(cl.PIPES):
+            cases.append(cl.gen_config(rng, geom=g, pipe=p, fluid=cl.FLUIDS[k % 5], cap=bool(k & 1), cont=bool(k & 2),
+                                       flow=["BOREHOLE", "SYSTEM"][(pi + k // 4) % 2], rotations=boundary_rot.get(g, [None] * 4)[pi]))
             k += 1
     for i in range(n_random):
         loads = None
@@ -215,6 +220,8 @@ def _run_cases(ctx, cases, tmp):
         sig = json.dumps(cl.calls_jsonable(calls), sort_keys=True, default=str)
         for key in ("geom", "pipe", "fluid"):
             ctx.count(f"{key}:{desc.get(key)}")
+        flow = next((kw.get("flow_type_str", "").upper() for s_, kw in calls if s_ == "set_design"), "?")
+        ctx.count(f"geom-x-flow:{str(desc.get('geom')).replace('_NORATIO', '')}:{flow}")
         ctx.count(f"cap:{desc.get('cap')}")
         ctx.count(f"continue:{desc.get('cont')}")
         if "rejected" in res:
@@ -227,9 +234,14 @@ def _run_cases(ctx, cases, tmp):
             ctx.case(hash(sig), True)
             continue
         ctx.case(hash(sig), True, {"desc": desc, "file_bytes": len(res["text1"])} if idx % 37 == 0 else None)
+        ctx.count(f"accepted-geom-x-flow:{str(desc.get('geom')).replace('_NORATIO', '')}:{flow}")
         res.update(calls=calls, desc=desc, doc=json.loads(res["text1"]))
         live.append(res)
     ctx.count("accepted", len(live))
+    for g in ("NEARSQUARE", "RECTANGLE", "BIRECTANGLE", "BIZONEDRECTANGLE", "BIRECTANGLECONSTRAINED", "ROWWISE"):
+        for fl in ("BOREHOLE", "SYSTEM"):
+            if not ctx.hist.get(f"accepted-geom-x-flow:{g}:{fl}"):
+                ctx.infra(f"no accepted configuration for {g} x {fl}: the covering array lost a cell")
     # ---- model, one batch
     lines = []
     for b in live:
@@ -262,6 +274,24 @@ def _run_cases(ctx, cases, tmp):
                 want = json.dumps(doc, sort_keys=bool(val["sort_keys"]), indent=int(val["indent"]) or None, separators=(",", ": "))
                 if want != b["text1"] or int(val["ret"]) != b["rc"]:
                     _broken(ctx, "format-correspondence", {"replay": replay, "model_sort_keys": val["sort_keys"], "model_indent": str(val["indent"])})
+        # ------------------------------------------------ predicate 0: the file (and both managers) say what was handed to the setters
+        flow = cl.api_config_file(calls)["design"]["flow_type"]
+        want_file = cl.exact(cl.api_config_file(calls))
+        d = cl.first_diff(want_file, {k: v for k, v in cl.exact(doc).items() if k != "version"})
+        if d:
+            ctx.finding(f"written-vs-api-config:{tag}:{flow}:{d.split(':')[0]}",
+                        f"the written file does not say what the API was given ({tag}, flow type {flow}): setter argument vs written value at {d}", replay)
+        want_state = cl.exact(cl.api_config_state(calls))
+        d = cl.first_diff_subset(want_state, st)
+        if d:
+            ctx.finding(f"manager-vs-api-config:{tag}:{flow}:{d.split(':')[0]}",
+                        f"the manager does not hold what the setters were given ({tag}, flow type {flow}): setter argument vs attribute at {d}", replay)
+        if "state2" in b:
+            d = cl.first_diff_subset(want_state, cl.exact(b["state2"]))
+            if d:
+                ctx.finding(f"reloaded-vs-api-config:{tag}:{flow}:{d.split(':')[0]}",
+                            f"the manager rebuilt from the written file does not hold the configuration the API was given ({tag}, flow type {flow}): "
+                            f"setter argument vs reloaded attribute at {d}", replay)
         # ------------------------------------------------ predicate 1: the written file validates
         rv = tuple(b["validate"])
         sections = b["oracle"]
